@@ -21,9 +21,10 @@ CHECKS = {
          "Reader items (text, label, name, span, comments) compared with the layout engine's ground truth for free and "
          "fixed form, and drawn get/put histories compared with a list model including object identity on re-read.",
          TRUST, "DESIGN.md 5 C12"),
- "C06": ("mutation-based fuzzing of generated programs + token soup + invalid UTF-8, exception-bucketing oracle with a deterministic work budget",
-         "1-3 mutations of generated valid programs (all layouts), random token soup and byte-level corruption, for both "
-         "standards, comment settings and reader kinds; anything other than a tree or FortranSyntaxError is a failure.",
+ "C06": ("mutation-based fuzzing of generated programs (character/token/line level, exhaustive 1-3 token edits per statement) + token soup + deep nesting + invalid UTF-8; thorough adds coverage-guided atheris/libFuzzer campaigns; exception-bucketing oracle with a deterministic work budget and a wall-clock hang guard",
+         "1-3 mutations of generated valid programs (all layouts), every small token edit of generated statements, random "
+         "token soup, deep nests and byte-level corruption, for both standards, comment settings and reader kinds (thorough: "
+         "plus 16 libFuzzer campaigns with the oracle in the target); anything other than a tree or FortranSyntaxError is a failure.",
          TRUST + " The time bound is represented by a deterministic count of rule constructions.", "DESIGN.md 5 C06"),
  "C07": ("exhaustive-per-program fault injection (every statement replaced by garbage) with an exact line/text oracle",
          "For generated multi-unit programs in free-form layouts every statement position is replaced by text no rule "
